@@ -45,6 +45,12 @@ class UserAddEdge(ActionGroup):
             raise InvalidActionError(
                 f"Target node {target} not in solution yet - must be added before edge"
             )
+        # Edges must lead strictly forward in time (this also excludes self loops)
+        if tracks.get_time(source) >= tracks.get_time(target):
+            raise InvalidActionError(
+                f"Cannot add edge {edge}: source node {source} is not earlier in time "
+                f"than target node {target}"
+            )
 
         # Check if making a merge. If yes and force, remove the other edge and update
         # track ids.
